@@ -177,16 +177,49 @@ def verify_function(prog, db, q, contract, case=None):
                 loc.env['result'] = v
                 if 'self' in pre['env']:
                     loc.env['self'] = pre['env']['self']
+                for oid_, nm_ in sorted(ex.frame_roots.items()):
+                    ex.oblige(s, 'frame:%s' % nm_, s.ver.get(oid_, 0) == pre['ver'].get(oid_, 0), fi.node, text='%s is not modified on this path' % nm_)
                 for cl in contract.of('let'):
                     for k2, a in cl.kw.items():
                         loc.env[k2] = ex.evs(a, loc)
                 apply_hints(ex, contract, 'return', loc, s)
+                # ghost assertions over the locals of the path: each is an obligation, then a cut fact for what follows
+                for cl in contract.of('lemma'):
+                    for a in cl.args:
+                        hh = dict(loc.heap)
+                        hh.update(s.heap)
+                        h = State(dict(s.env), hh, s.ver, s.pc, s.ghost)
+                        h.env['result'] = v
+                        for k2 in loc.env:
+                            if k2 not in h.env:
+                                h.env[k2] = loc.env[k2]
+                        try:
+                            g = ex.truth(ex.evs(a, h), h)
+                        except Unsupported as u:
+                            if 'unbound name' in str(u):
+                                continue
+                            raise
+                        s.heap.update({k2: v2 for k2, v2 in h.heap.items() if k2 not in s.heap})
+                        loc.heap.update({k2: v2 for k2, v2 in h.heap.items() if k2 not in loc.heap})
+                        ex.oblige(s, 'lemma', g, a, text='ghost assertion ' + ast.unparse(a)[:140])
+                        s.assume(g)
                 for cl in contract.of('ensures'):
                     for a in cl.args:
                         g = ex.truth(ex.evs(a, loc), loc)
                         s.pc[:] = loc.pc
                         ex.oblige(s, 'post', g, a, text='ensures ' + ast.unparse(a)[:140])
                         s.assume(g)      # cut: later obligations of this path may use an ensures clause that has its own obligation
+                for cl in contract.of('ensures_exists'):
+                    # existential over the named locals of the path (the witnesses); concretely they are computed by witness(...)
+                    for a in cl.args:
+                        hh = dict(loc.heap); hh.update(s.heap)
+                        h = State(dict(s.env), hh, s.ver, s.pc, s.ghost)
+                        h.env.update({k2: v2 for k2, v2 in loc.env.items() if k2 not in h.env or k2 in pre['env']})
+                        h.env['result'] = v
+                        g = ex.truth(ex.evs(a, h), h)
+                        s.heap.update({k2: v2 for k2, v2 in h.heap.items() if k2 not in s.heap})
+                        ex.oblige(s, 'post', g, a, text='ensures (witness: locals) ' + ast.unparse(a)[:130])
+                        s.assume(g)
                 for cl in contract.of('establishes'):
                     for k2, a in cl.kw.items():
                         want = ex.evs(a, loc)
@@ -199,6 +232,22 @@ def verify_function(prog, db, q, contract, case=None):
                         g = NOT(ex.truth(ex.evs(cl.kw['when'], loc), loc))
                         s.pc[:] = loc.pc
                         ex.oblige(s, 'post:no-%s' % exc, g, cl.kw['when'], text='normal return only when not (%s)' % ast.unparse(cl.kw['when'])[:120])
+                for cl in contract.of('reproducible'):
+                    # C13: with an int seed the result (and any draw) depends on the seed only; unseeded calls depend on the incoming state
+                    seeded = case.get('random_state') == 'int'
+                    when = ex.truth(ex.evs(cl.kw['when'], loc), loc) if 'when' in cl.kw else True
+                    if when is False:
+                        continue
+                    subject = v
+                    if cl.args:
+                        subject = tuple(ex.evs(a, loc) for a in cl.args)
+                    det = deterministic(ex, loc if cl.args else s, subject)
+                    if seeded:
+                        ex.oblige(s, 'noninterference', IMPLIES(when, det), fi.node, text='seeded result is independent of numpy\'s global generator state and of fresh entropy')
+                        if cl.kw.get('private') is not None and ast.literal_eval(cl.kw['private']):
+                            ex.oblige(s, 'no-global-write', IMPLIES(when, not s.ghost.get('G_written', False)), fi.node, text='a private default_rng(seed) is used: the global generator is neither read nor reseeded')
+                    elif case.get('random_state') == 'none' and ('nondegenerate' not in cl.kw or ast.literal_eval(cl.kw['nondegenerate'])):
+                        ex.oblige(s, 'nondegenerate', IMPLIES(when, not det), fi.node, text='unseeded result depends on the incoming generator state / entropy')
                 for cl in contract.of('functional'):
                     comp = ex.evs(cl.args[0], loc)
                     ex.oblige(s, 'deterministic', deterministic(ex, s, comp), fi.node, text='result is a function of the arguments: no generator state or entropy is read')
